@@ -716,7 +716,7 @@ def run(ctx):
             if b:
                 ctx.violation("bounds/chain-end.%s" % opkey, "end of chain: %s" % b, wit)
 
-    n = ctx.share(ctx.pick(24000, 240000))
+    n = ctx.share(ctx.pick(24000, 1000000))
     for i in range(n):
         ctx.run_case(program, {"seed": rng.randrange(2 ** 40)})
     ctx.sample({"encoding": "DNA", "initial": ["ACG", "", "TT"], "program": [["row_slice", {"start": None, "stop": None, "step": -1}], ["col_reverse", {}], ["row_fancy", {"idx": [0, 1]}], ["eq_char", {"c": "T"}]]})
